@@ -43,9 +43,10 @@ namespace Momentum
 theorem spec {P n : Nat} (v : K) (hn0 : 0 < n) (hn : n ≤ P - 1) (xs : List K) :
     ∃ s0 outs s', Momentum.new P n v = .ok s0 ∧ runM Momentum.next s0 xs = .ok (outs, s') ∧
       outs.length = xs.length ∧ ∀ i (hi : i < outs.length), outs[i] = Spec.momentum n v (xs.take (i + 1)) := by
+  have hnP : n ≠ P := by omega
   apply method_spec _ _ (fun h s => PastInv P n v s.window h)
   · obtain ⟨w, hw, hi⟩ := pastInv_new (P := P) v hn
-    exact ⟨⟨w⟩, by simp [Momentum.new, (Nat.pos_iff_ne_zero.mp hn0), winNew, hw, Res.ofExcept, Res.bind], hi⟩
+    exact ⟨⟨w⟩, by simp [Momentum.new, (Nat.pos_iff_ne_zero.mp hn0), hnP, winNew, hw, Res.ofExcept, Res.bind], hi⟩
   · intro h s x hinv
     obtain ⟨old, w', hp, hi', hpast⟩ := pastInv_push x hn0 hinv
     exact ⟨x - old, ⟨w'⟩, by simp [Momentum.next, hp], hi', by simp [Spec.momentum, cur_snoc, hpast]⟩
@@ -55,10 +56,11 @@ namespace Derivative
 theorem spec {P n : Nat} (v : K) (hn0 : 0 < n) (hn : n ≤ P - 1) (xs : List K) :
     ∃ s0 outs s', Derivative.new P n v = .ok s0 ∧ runM Derivative.next s0 xs = .ok (outs, s') ∧
       outs.length = xs.length ∧ ∀ i (hi : i < outs.length), outs[i] = Spec.derivative n v (xs.take (i + 1)) := by
+  have hnP : n ≠ P := by omega
   apply method_spec _ _ (fun h s => PastInv P n v s.window h ∧ s.divider = 1 / (n : K))
   · obtain ⟨w, hw, hi⟩ := pastInv_new (P := P) v hn
     exact ⟨⟨1 / (n : K), w⟩,
-      by simp [Derivative.new, (Nat.pos_iff_ne_zero.mp hn0), winNew, hw, Res.ofExcept, Res.bind], hi, rfl⟩
+      by simp [Derivative.new, (Nat.pos_iff_ne_zero.mp hn0), hnP, winNew, hw, Res.ofExcept, Res.bind], hi, rfl⟩
   · intro h s x ⟨hinv, hd⟩
     obtain ⟨old, w', hp, hi', hpast⟩ := pastInv_push x hn0 hinv
     refine ⟨(x - old) * s.divider, { s with window := w' }, by simp [Derivative.next, hp], ⟨hi', hd⟩, ?_⟩
@@ -69,9 +71,10 @@ namespace RateOfChange
 theorem spec {P n : Nat} (v : K) (hn0 : 0 < n) (hn : n ≤ P - 1) (xs : List K) :
     ∃ s0 outs s', RateOfChange.new P n v = .ok s0 ∧ runM RateOfChange.next s0 xs = .ok (outs, s') ∧
       outs.length = xs.length ∧ ∀ i (hi : i < outs.length), outs[i] = Spec.roc n v (xs.take (i + 1)) := by
+  have hnP : n ≠ P := by omega
   apply method_spec _ _ (fun h s => PastInv P n v s.window h)
   · obtain ⟨w, hw, hi⟩ := pastInv_new (P := P) v hn
-    exact ⟨⟨w⟩, by simp [RateOfChange.new, (Nat.pos_iff_ne_zero.mp hn0), winNew, hw, Res.ofExcept, Res.bind], hi⟩
+    exact ⟨⟨w⟩, by simp [RateOfChange.new, (Nat.pos_iff_ne_zero.mp hn0), hnP, winNew, hw, Res.ofExcept, Res.bind], hi⟩
   · intro h s x hinv
     obtain ⟨old, w', hp, hi', hpast⟩ := pastInv_push x hn0 hinv
     exact ⟨(x - old) / old, ⟨w'⟩, by simp [RateOfChange.next, hp], hi', by simp [Spec.roc, cur_snoc, hpast]⟩
@@ -81,9 +84,10 @@ namespace Past
 theorem spec {P n : Nat} (v : K) (hn0 : 0 < n) (hn : n ≤ P - 1) (xs : List K) :
     ∃ s0 outs s', Past.new P n v = .ok s0 ∧ runM Past.next s0 xs = .ok (outs, s') ∧
       outs.length = xs.length ∧ ∀ i (hi : i < outs.length), outs[i] = Spec.past n v (xs.take (i + 1)) := by
+  have hnP : n ≠ P := by omega
   apply method_spec _ _ (fun h s => PastInv P n v s.window h)
   · obtain ⟨w, hw, hi⟩ := pastInv_new (P := P) v hn
-    exact ⟨⟨w⟩, by simp [Past.new, (Nat.pos_iff_ne_zero.mp hn0), hw, Res.ofExcept, Res.bind], hi⟩
+    exact ⟨⟨w⟩, by simp [Past.new, (Nat.pos_iff_ne_zero.mp hn0), hnP, hw, Res.ofExcept, Res.bind], hi⟩
   · intro h s x hinv
     obtain ⟨old, w', hp, hi', hpast⟩ := pastInv_push x hn0 hinv
     exact ⟨old, ⟨w'⟩, by simp [Past.next, hp], hi', hpast.symm⟩
@@ -94,9 +98,10 @@ namespace Integral
 theorem spec {P n : Nat} (v : K) (hn0 : 0 < n) (hn : n ≤ P - 1) (xs : List K) :
     ∃ s0 outs s', Integral.new P n v = .ok s0 ∧ runM Integral.next s0 xs = .ok (outs, s') ∧
       outs.length = xs.length ∧ ∀ i (hi : i < outs.length), outs[i] = Spec.integral n v (xs.take (i + 1)) := by
+  have hnP : n ≠ P := by omega
   apply method_spec _ _ (fun h s => Tracks P n s.window (history n v h) ∧ s.value = Spec.integral n v h)
   · obtain ⟨w, hw, ht⟩ := Tracks.new (P := P) v hn
-    refine ⟨⟨v * (n : K), w⟩, by simp [Integral.new, winNew, hw, Res.ofExcept, Res.bind], ht, ?_⟩
+    refine ⟨⟨v * (n : K), w⟩, by simp [Integral.new, hnP, winNew, hw, Res.ofExcept, Res.bind], ht, ?_⟩
     simp [Spec.integral, Spec.win, lastN_history_nil, mul_comm]
   · intro h s x ⟨ht, hv⟩
     obtain ⟨old, w', hp, ht', hhead⟩ := ht.push hn0 x
@@ -120,12 +125,12 @@ theorem spec {P n : Nat} (v : K) (hn0 : 0 < n) (hn : n ≤ P - 1) (xs : List K) 
     simp [Integral.next, hempty, hp]
 
 /-- cumulative sum (length 0) -/
-theorem spec0 {P : Nat} (v : K) (xs : List K) :
+theorem spec0 {P : Nat} (hP : 0 < P) (v : K) (xs : List K) :
     ∃ s0 outs s', Integral.new P 0 v = .ok s0 ∧ runM Integral.next s0 xs = .ok (outs, s') ∧
       outs.length = xs.length ∧ ∀ i (hi : i < outs.length), outs[i] = Spec.integral0 (xs.take (i + 1)) := by
   apply method_spec _ _ (fun h s => s.window = Window.empty ∧ s.value = Spec.integral0 h)
   · refine ⟨⟨v * ((0 : Nat) : K), Window.empty⟩, ?_, rfl, by simp [Spec.integral0]⟩
-    simp [Integral.new, winNew, Window.new, Res.ofExcept, Res.bind, Window.empty, satSub]
+    simp [Integral.new, (show 0 ≠ P by omega), winNew, Window.new, Res.ofExcept, Res.bind, Window.empty, satSub]
   · intro h s x ⟨hw, hv⟩
     refine ⟨s.value + x, { s with value := s.value + x }, ?_, ⟨hw, ?_⟩, ?_⟩
     · simp [Integral.next, hw, Window.isEmpty, Window.empty]
